@@ -319,7 +319,10 @@ BIG = 1000
 
 
 def _table(env, st):
-    full = np.asarray(env.d.get_mask(st))
+    try:
+        full = np.asarray(env.d.get_mask(st))
+    except Exception:  # noqa  (the full-size mask itself raises: run_impl reports it, the Spec rejects it)
+        full = np.zeros(env.shape, dtype=bool)
     return ["table", [bool(b) for b in full.ravel().tolist()]]
 
 
